@@ -20,6 +20,13 @@ pub(super) struct Recv {
     pub(super) stopped: bool,
 }
 
+#[cfg(feature = "quinn_rs_quinn_verif")]
+impl Recv {
+    pub(super) fn verif_sent_max_stream_data(&self) -> u64 {
+        self.sent_max_stream_data
+    }
+}
+
 impl Recv {
     pub(super) fn new(initial_max_data: u64) -> Box<Self> {
         Box::new(Self {
